@@ -260,6 +260,7 @@ func (h *vfE2H) doCls(k int) {
 }
 
 func (h *vfE2H) acked(tp *vfE2Topic, seq, size int, deferred bool) {
+	h.topicOf[seq] = tp.t
 	tp.pending = append(tp.pending, seq)
 	tp.acked = append(tp.acked, seq)
 	tp.ackedB += uint64(size)
@@ -365,13 +366,15 @@ func (h *vfE2H) doMpub(t int, sizes []int, viaHTTP bool) {
 }
 
 // message id token: a sequence number, or f<N> for an id that was never issued
-func (h *vfE2H) idOf(tok string) (int, []byte) {
+// (message ids are unique per topic only - two topics can issue the same GUID - so an id of
+// another topic's message is replaced by a fabricated one to keep "foreign" meaning foreign)
+func (h *vfE2H) idOf(tok string, t int) (int, []byte) {
 	if strings.HasPrefix(tok, "f") {
 		n, _ := strconv.Atoi(tok[1:])
 		return 900000000 + n, []byte(fmt.Sprintf("%016x", 0xdead00000000+n))
 	}
 	seq, _ := strconv.Atoi(tok)
-	if id, ok := h.ids[seq]; ok {
+	if id, ok := h.ids[seq]; ok && h.topicOf[seq] == t {
 		return seq, id[:]
 	}
 	return seq, []byte(fmt.Sprintf("%016x", 0xbeef00000000+seq))
@@ -397,7 +400,7 @@ func (h *vfE2H) doFin(k int, tok string) {
 	if cn == nil || cn.dead {
 		return
 	}
-	seq, id := h.idOf(tok)
+	seq, id := h.idOf(tok, cn.t)
 	ch := h.chanOf(cn)
 	var before string
 	if ch != nil {
@@ -428,7 +431,7 @@ func (h *vfE2H) doReq(k int, tok string, delay uint64) {
 	if cn == nil || cn.dead {
 		return
 	}
-	seq, id := h.idOf(tok)
+	seq, id := h.idOf(tok, cn.t)
 	ch := h.chanOf(cn)
 	var before string
 	if ch != nil {
@@ -476,7 +479,7 @@ func (h *vfE2H) doTouch(k int, tok string) {
 	if cn == nil || cn.dead {
 		return
 	}
-	seq, id := h.idOf(tok)
+	seq, id := h.idOf(tok, cn.t)
 	ch := h.chanOf(cn)
 	var before string
 	if ch != nil {
@@ -668,6 +671,11 @@ func (h *vfE2H) doEmpty(t, c int) {
 		return
 	}
 	ch := tp.chans[c]
+	// Channel.Empty zeroes the clients' in-flight counters before it drains the queue: a
+	// consumer that becomes ready through that can receive a queued message in the middle of
+	// the Empty (the message then survives it). Serial runs keep Empty atomic: no consumer
+	// has RDY > 0 meanwhile. (The race itself is C08 territory; the concurrent leg meets it.)
+	h.park([]*vfE2Chan{ch}, true)
 	rc := h.realChan(ch)
 	if rc == nil {
 		return
